@@ -21,6 +21,27 @@ theorem length_dropWhile_le {α} (p : α → Bool) (l : List α) : (l.dropWhile 
     simp only [List.dropWhile]
     split <;> simp <;> omega
 
+/-- the same for the pass over Unicode decimal digits (work package B2) -/
+theorem durationStepUni_shrinks (s1 : List Char) (ts : Bool) (acc : Int) (rest : List Char) (ts' : Bool) (acc' : Int)
+    (h : durationStepUni s1 ts acc = .ok (.more rest ts' acc')) : rest.length < s1.length := by
+  have key := length_dropWhile_le isPyDecimal s1
+  unfold durationStepUni at h
+  simp only [bind, Except.bind, pure, Except.pure] at h
+  generalize List.dropWhile isPyDecimal s1 = r1 at h key
+  cases r1 with
+  | nil => simp [err] at h
+  | cons w r2 =>
+    simp only at h
+    have hA := length_takeWhile_le (fun x => decide (x ≠ '\n')) r2
+    simp only [List.length_cons] at key
+    repeat' split at h
+    all_goals first
+      | (exfalso; simp [err] at h; done)
+      | (simp only [Except.ok.injEq, DurStep.more.injEq] at h
+         obtain ⟨h1, -, -⟩ := h
+         subst h1
+         omega)
+
 /-- every pass that goes round again has strictly shortened `duration` -/
 theorem durationStep_shrinks (s : List Char) (ts : Bool) (acc : Int) (rest : List Char) (ts' : Bool) (acc' : Int)
     (h : durationStep s ts acc = .ok (.more rest ts' acc')) : rest.length < s.length := by
@@ -40,7 +61,10 @@ theorem durationStep_shrinks (s : List Char) (ts : Bool) (acc : Int) (rest : Lis
     simp only [List.length_cons] at key
     repeat' split at h
     all_goals first
-      | (exfalso; simp [err, unsupported] at h; done)
+      | (exfalso; simp [err] at h; done)
+      | (have hu := durationStepUni_shrinks _ _ _ _ _ _ h
+         have ht : s.tail.length ≤ s.length := by simp
+         omega)
       | (simp only [Except.ok.injEq, DurStep.more.injEq] at h
          obtain ⟨h1, -, -⟩ := h
          subst h1
